@@ -21,9 +21,12 @@ var SchemeNames = []string{"a", "b", "c", "d"}
 
 // Alt is one requirement alternative: the empty (anonymous) one, or a set of scheme names with scopes.
 type Alt struct {
-	Anon    bool                `json:"anon,omitempty"`
-	Schemes []string            `json:"schemes,omitempty"` // a set, kept sorted
-	Scopes  map[string][]string `json:"scopes,omitempty"`
+	// EmptyName: the requirement object also carries an entry under the empty name ({"": [], "a": []}): a scheme
+	// nobody defined or registered, skipped like any other such scheme (it does not make the alternative anonymous)
+	EmptyName bool                `json:"empty_name,omitempty"`
+	Anon      bool                `json:"anon,omitempty"`
+	Schemes   []string            `json:"schemes,omitempty"` // a set, kept sorted
+	Scopes    map[string][]string `json:"scopes,omitempty"`
 }
 
 // Vec is the outcome of each scheme for one request: "na" (no credentials found), "ok" (accepted, principal
@@ -110,6 +113,9 @@ func evalAlt(a Alt, order []string, reg map[string]bool, vec Vec) altResult {
 			return altResult{kind: "err", scheme: s}
 		case o == "ok":
 			princ = append(princ, principalOf(s))
+		case o == "okempty":
+			// accepted with a principal that is the zero value of its type (the empty user name): a principal like any other
+			princ = append(princ, "")
 		case o == "nil":
 			sawNil = true
 		default:
